@@ -44,9 +44,8 @@ fn trimmed<'a>(crlf: bool, s: &'a [u8]) -> &'a [u8] {
     &s[i..]
 }
 
-/// every byte string a line-oriented record text can be made of: the event's bytes, each of its lines,
-/// each recorded match inside it — each also without its whitespace prefix, and every suffix that starts
-/// where a whitespace prefix ends
+/// every byte string a record text can be made of: the event's bytes, each of its lines with and without
+/// terminator, each recorded match, each part of a line inside a match — each also without its whitespace prefix
 fn grapheme_table(prep: &Prepared) -> Val {
     let crlf = prep.flags.crlf;
     let mut seen: HashSet<Vec<u8>> = HashSet::new();
@@ -67,15 +66,8 @@ fn grapheme_table(prep: &Prepared) -> Val {
             };
             let bytes = &buf[rs..re];
             add(bytes);
-            let mut start = 0;
-            for (i, &b) in bytes.iter().enumerate() {
-                if b == b'\n' {
-                    add(&bytes[start..=i]);
-                    start = i + 1;
-                }
-            }
-            if start < bytes.len() { add(&bytes[start..]); }
-            // the spans record_matches can find (for -o records)
+            // the spans record_matches can find, relative to `bytes`
+            let mut spans: Vec<(usize, usize)> = vec![];
             let hay = context_haystack(prep.multi, crlf, buf, re);
             let mut at = rs;
             let mut last_end: Option<usize> = None;
@@ -91,9 +83,41 @@ fn grapheme_table(prep: &Prepared) -> Val {
                         }
                         last_end = Some(m.end());
                         let (s, e) = (m.start().saturating_sub(rs), m.end().min(re).saturating_sub(rs));
-                        if s <= e && e <= bytes.len() { add(&bytes[s..e]); }
+                        if s <= e && e <= bytes.len() {
+                            add(&bytes[s..e]);
+                            spans.push((s, e));
+                        }
                     }
                     _ => break,
+                }
+            }
+            // line ranges, with and without terminator, from the line start and from the end of its whitespace prefix
+            let mut ranges: Vec<(usize, usize)> = vec![];
+            let mut start = 0;
+            let mut push_line = |a: usize, b: usize, ranges: &mut Vec<(usize, usize)>| {
+                let mut b2 = b;
+                if b2 > a && bytes[b2 - 1] == b'\n' {
+                    b2 -= 1;
+                    if crlf && b2 > a && bytes[b2 - 1] == b'\r' { b2 -= 1; }
+                }
+                for end in [b, b2] {
+                    let t = trimmed(crlf, &bytes[a..end]);
+                    ranges.push((a, end));
+                    ranges.push((end - t.len(), end));
+                }
+            };
+            for (i, &b) in bytes.iter().enumerate() {
+                if b == b'\n' {
+                    push_line(start, i + 1, &mut ranges);
+                    start = i + 1;
+                }
+            }
+            if start < bytes.len() { push_line(start, bytes.len(), &mut ranges); }
+            for &(a, b) in &ranges {
+                add(&bytes[a..b]);
+                for &(ms, me) in &spans {
+                    let (x, y) = (a.max(ms), b.min(me));
+                    if x < y { add(&bytes[x..y]); }
                 }
             }
         }
@@ -148,8 +172,7 @@ fn run_mode(prep: &Prepared, mode: &Val) -> Val {
 
 /// case: (pattern flags files modes)   files := list of (path input)
 /// result: (status model_case real_results prefix_law)
-///   status 0 ok, 1 pattern rejected, 2 search failed, 3 a mode outside the model
-///   (multi-line strategy with -o / --vimgrep together with a limit or --trim)
+///   status 0 ok, 1 pattern rejected, 2 search failed
 pub fn run_cols(v: &Val) -> Val {
     let pattern = String::from_utf8(v.fld(0).bytes()).unwrap_or_default();
     let flags = Flags::parse(v.fld(1));
@@ -160,12 +183,6 @@ pub fn run_cols(v: &Val) -> Val {
         Err(code) => return Val::L(vec![Val::N(code as u128)]),
     };
     let modes = v.fld(3).clone();
-    for m in modes.list() {
-        let cols = m.fld(15).opt().is_some() || m.fld(17).b();
-        if prep.multi && cols && (m.fld(3).b() || m.fld(4).b()) {
-            return Val::L(vec![Val::N(3)]);
-        }
-    }
     let (env, tables, fvals) = prep.model_parts();
     let gt = grapheme_table(&prep);
     let real: Vec<Val> = modes.list().iter().map(|m| run_mode(&prep, m)).collect();
